@@ -18,7 +18,8 @@ PID = "C17"
 UNIT = "obj"
 
 PINNED = [
-    "dispatch_refines_spec", "c17a_refuted", "rhs_fallback_iff", "only_arithmetic_asks_rhs", "derived_comparisons",
+    "dispatch_refines_spec", "c17a_refuted", "rhs_fallback_iff", "only_arithmetic_asks_rhs",
+    "errors_propagate_unchanged", "no_frame_left_behind", "derived_comparisons",
     "access_chain_order", "access_first_hit_is_first", "access_found_wins", "shared_meta_equiv",
     "object_unimplemented_is_error", "dispatch_keys_complete",
 ]
@@ -43,8 +44,16 @@ DESC = {
     "R": {"null": "null", "bool": "bfalse", "number": "n3", "str": "s:r", "list": "list[n3]",
           "tuple": "tuple[n3]", "range": "range1", "fn": "fn", "iter": "iter"},
 }
-FRES_COQ = {"val": "FVal", "true": "FBool true", "false": "FBool false", "null": "FNull", "seq": "FSeq",
-            "unimpl": "FUnimpl", "err": "FErr"}
+RT_BODY = {"rt_type": "1 + true", "rt_access": "{}.missing", "rt_assert": "assert false", "rt_deep": "boom2()",
+           "rt_arity": "(|q| q)(1, 2)"}
+RT_CLASS = {"rt_type": {"EBinaryOp"}, "rt_access": {"ENotFound", "EString"}, "rt_assert": {"EAssert", "EString"},
+            "rt_deep": {"EBinaryOp"}, "rt_arity": {"EArgs"}}
+RT_KINDS = sorted(RT_BODY)
+ERR_BEH = {"err", "unimpl"} | set(RT_KINDS)
+FRES_COQ = {"rt_type": "FErr Runtime", "rt_access": "FErr Runtime", "rt_assert": "FErr Runtime", "rt_deep": "FErr Runtime",
+            "rt_arity": "FErr Runtime",
+            "val": "FVal", "true": "FBool true", "false": "FBool false", "null": "FNull", "seq": "FSeq",
+            "unimpl": "FUnimpl", "err": "FErr Thrown"}
 
 ARGC = {"@index": 1, "@index_assign": 2, "@access": 1, "@access_assign": 2, "@call": 1}
 UNARY_KEYS = {"@negate", "@size", "@display", "@debug", "@iterator", "@next", "@next_back"}
@@ -90,6 +99,8 @@ def fn_body(side, key, beh):
             return [f"({tag}, {tag}).iter()"]
         if beh == "seq":
             return [f"[{tag}, {tag}]"]
+    if beh in RT_BODY:
+        return [RT_BODY[beh]]
     return {"val": [tag], "true": ["true"], "false": ["false"], "null": ["null"], "seq": [f"[{tag}]"],
             "unimpl": ["throw koto.unimplemented"], "err": ["throw 'boom'"]}[beh]
 
@@ -114,7 +125,7 @@ def define(side, k, oracle):
             return [f"{side} = bare '{side}'"]
         ctor = "host4" if set(keys) & set(DERIVED4) else "host"
         kl = ", ".join(f"'{x}'" for x in keys)
-        bl = ", ".join(f"'{x}': '{beh[x]}'" for x in keys)
+        bl = ", ".join(f"'{x}': '{'rt' if beh[x] in RT_BODY else beh[x]}'" for x in keys)
         return [f"{side} = {ctor} '{side}', [{kl}], {{{bl}}}"]
     keys = sorted(k[1])
     variant = k[2]
@@ -168,14 +179,42 @@ def op_stmt(op):
         return ["L[R] = 5", "L"]
     if kind == "access_assign":
         return ["L.foo = 5", "L"]
+    if kind == "access":
+        return ["L.foo"]
     return {"UNeg": ["-L"], "USizeOf": ["size L"], "UDisp": ["\"{L}\""], "UDbg": ["\"{L:?}\""],
             "UCallOp": ["L(R)"], "UFor": ["out = []", "for v in L", "  out.push v", "out"],
             "UToTuple": ["L.to_tuple()"], "UReversed": ["L.reversed().to_tuple()"]}[name]
 
 
+PRELUDE = ["boom1 = || 1 + true", "boom2 = || boom1()"]
+FOLLOW_UP = ["ev 'after'", "FU =", "  id: 'FU'", "  @+: |o| 'fu'", "fu1 = FU + 1", "fu2 = (|| 7)()", "[res, fu1, fu2]"]
+
+
 def make_script(case):
-    lines = define("L", case["l"], case["oracle"]) + define("R", case["r"], case["oracle"]) + op_stmt(case["op"])
+    """ctx None: the operation at top level.  ctx d in 0..2: the operation runs d ordinary function
+    calls below a try / catch / finally, itself inside an outer try; afterwards the same VM does a
+    follow-up operator dispatch and an ordinary call"""
+    defs = PRELUDE + define("L", case["l"], case["oracle"]) + define("R", case["r"], case["oracle"])
+    d = case.get("ctx")
+    if d is None:
+        return "\n".join(defs + op_stmt(case["op"])) + "\n"
+    lines = defs + ["res = []", "f0 = ||"] + ["  " + l for l in op_stmt(case["op"])]
+    lines += ["f1 = || f0()", "f2 = || f1()",
+              "inner = ||", "  try", f"    res.push (f{d}())", "  catch e", "    ev 'catch-inner'", "    res.push 'caught'",
+              "  finally", "    ev 'finally'",
+              "outer = ||", "  try", "    inner()", "  catch e2", "    ev 'catch-outer'",
+              "outer()"] + FOLLOW_UP
     return "\n".join(lines) + "\n"
+
+
+WRAP_PREFIX, WRAP_SUFFIX = "L[L[", '],s"fu",i7]'
+
+
+def unwrap_result(result):
+    """the operation's own result inside the wrapped script's [res, fu1, fu2]"""
+    if result.startswith(WRAP_PREFIX) and result.endswith(WRAP_SUFFIX):
+        return result[len(WRAP_PREFIX):-len(WRAP_SUFFIX)]
+    return None
 
 
 def case_term(T, case):
@@ -199,7 +238,25 @@ def expected_trace(T, case, events):
     return out
 
 
-def result_matches(T, case, outcome, result):
+def expected_full_trace(T, case, events, outcome):
+    et = expected_trace(T, case, events)
+    if case.get("ctx") is not None:
+        et = et + ([["catch-inner"]] if outcome[0] == 6 else []) + [["finally"], ["after"]]
+    return et
+
+
+def full_result_matches(T, case, events, outcome, result):
+    if case.get("ctx") is None:
+        return result_matches(T, case, outcome, result, events)
+    inner = unwrap_result(result)
+    if inner is None:
+        return False
+    if outcome[0] == 6:
+        return inner == 's"caught"'
+    return result_matches(T, case, outcome, inner, events)
+
+
+def result_matches(T, case, outcome, result, events=()):
     """does the implementation's canonical result fit the model's outcome?"""
     tag = outcome[0]
     lk = case["l"]
@@ -225,6 +282,15 @@ def result_matches(T, case, outcome, result):
         return result == (f"L[{items}]" if case["op"][1] == "UFor" else f"T({items})")
     if tag == 4:
         return not result.startswith("E")
+    if tag == 6 and outcome[1] == 6:
+        # the runtime error raised inside the last function that ran
+        if not events:
+            return False
+        e = events[-1]
+        side = "LR"[e[0]]
+        k = case["l"] if side == "L" else case["r"]
+        beh = case["oracle"].get((side, T.idx2spell[e[1]]), "val")
+        return result in ({"EType"} if k[0] == "obj" else RT_CLASS.get(beh, set()))
     if tag == 6:
         return result in ERR_CLASSES[outcome[1]]
     return False
@@ -256,13 +322,27 @@ def inspected(op):
         return ["@index_assign"]
     if kind == "access_assign":
         return ["@access_assign"]
+    if kind == "access":
+        return ["@access"]
     return {"UNeg": ["@negate"], "USizeOf": ["@size"], "UDisp": ["@display"], "UDbg": ["@debug", "@display"],
             "UCallOp": ["@call"], "UFor": ["@next", "@iterator"], "UToTuple": ["@next", "@iterator"],
             "UReversed": ["@next", "@next_back", "@iterator"]}[name]
 
 
+_rt_rot = [0]
+
+
 def behaviours(op, side, key, is_obj):
-    """oracle values worth exploring for the function under `key`"""
+    """oracle values worth exploring for the function under `key`; one (rotating) kind of runtime
+    error stands for all of them here -- gen_error_family covers every kind on every call path"""
+    base = behaviours0(op, side, key, is_obj)
+    if "err" in base:
+        _rt_rot[0] += 1
+        base = base + [RT_KINDS[_rt_rot[0] % len(RT_KINDS)]]
+    return base
+
+
+def behaviours0(op, side, key, is_obj):
     kind, name = op
     if kind == "arith":
         return ["val", "unimpl", "err"] + ([] if is_obj else ["null"])
@@ -296,8 +376,8 @@ def gen_cases(tier, seed, T):
     rng = C.Rng(seed)
     cases = []
 
-    def add(origin, op, l, r, oracle):
-        cases.append({"origin": origin, "op": op, "l": l, "r": r, "oracle": dict(oracle)})
+    def add(origin, op, l, r, oracle, ctx=None, nomodel=False):
+        cases.append({"origin": origin, "op": op, "l": l, "r": r, "oracle": dict(oracle), "ctx": ctx, "nomodel": nomodel})
 
     def oracle_product(op, l, r, cap):
         sites = []
@@ -405,7 +485,85 @@ def gen_cases(tier, seed, T):
         l, r = rkind("L"), rkind("R")
         combos = oracle_product(op, l, r, 2)
         add("random", op, l, r, combos[-1])
+
+    # every case generated so far whose oracle makes some function fail is ALSO run inside
+    # try / catch / finally (same model term, so no extra Coq work); depth rotates over 0..2
+    n = 0
+    for c in list(cases):
+        if c["origin"] != "corpus" and any(b in ERR_BEH for b in c["oracle"].values()):
+            n += 1
+            if quick and c["origin"] == "exhaustive" and n % 2:
+                continue
+            add("wrapped", c["op"], c["l"], c["r"], c["oracle"], ctx=n % 3)
+    gen_error_family(add, ops, quick)
     return cases
+
+
+def gen_error_family(add, ops, quick):
+    """every call path of the dispatch x every way a user function can fail x {bare, try at call
+    depth 0, 1, 2}.  A call path = (operation, which operand's function, under which key, reached
+    how): lhs own function; rhs @r.. after the lhs lacked the operator / declined; the derived
+    comparison calls; @next / @next_back / @iterator; @display standing in for @debug; @access."""
+    fails = ["err", "unimpl"] + RT_KINDS
+    ctxs = [None, 0, 1, 2]
+    paths = []     # (op, l keys, r kind, failing site, fixed oracle)
+    for op in ops + [("access", "")]:
+        kind, name = op
+        keys = inspected(op)
+        num = ("plain", "number")
+        if kind == "arith":
+            kop, krop = keys
+            paths.append((op, [kop], num, ("L", kop), {}))
+            paths.append((op, [], ("map", frozenset([krop]), "own"), ("R", krop), {}))
+            paths.append((op, [kop], ("map", frozenset([krop]), "own"), ("R", krop), {("L", kop): "unimpl"}))
+            paths.append((op, [kop], ("obj", frozenset([krop])), ("R", krop), {("L", kop): "unimpl"}))
+        elif kind == "cmp":
+            own = keys[0]
+            paths.append((op, [own], num, ("L", own), {}))
+            if name in ("Le", "Gt"):
+                paths.append((op, ["@<", "@=="], num, ("L", "@<"), {}))
+                paths.append((op, ["@<", "@=="], num, ("L", "@=="), {("L", "@<"): "false"}))
+            if name == "Ge":
+                paths.append((op, ["@<"], num, ("L", "@<"), {}))
+            if name == "Ne":
+                paths.append((op, ["@=="], num, ("L", "@=="), {}))
+        elif kind == "unary" and name in ("UFor", "UToTuple", "UReversed"):
+            paths.append((op, ["@iterator"], num, ("L", "@iterator"), {}))
+            if name == "UReversed":
+                paths.append((op, ["@next", "@next_back"], num, ("L", "@next_back"), {}))
+            else:
+                paths.append((op, ["@next"], num, ("L", "@next"), {}))
+        elif kind == "unary" and name == "UDbg":
+            paths.append((op, ["@debug"], num, ("L", "@debug"), {}))
+            paths.append((op, ["@display"], num, ("L", "@display"), {}))
+        else:
+            paths.append((op, [keys[0]], num, ("L", keys[0]), {}))
+    k = 0
+    for op, lkeys, r, site, fixed in paths:
+        for variant in (("map", "own"), ("map", "shared"), ("obj", None)):
+            if variant[0] == "obj":
+                if op[0] == "access" or site[1] in ("@next", "@next_back", "@size", "@debug"):
+                    continue       # host methods returning Option / not existing cannot fail
+                if set(lkeys) & set(DERIVED4):
+                    lk = ("obj", frozenset(set(lkeys) | set(DERIVED4)))
+                else:
+                    lk = ("obj", frozenset(lkeys))
+                if not lkeys:
+                    continue
+            else:
+                lk = ("map", frozenset(lkeys), variant[1])
+                if not lkeys and variant[1] == "shared":
+                    continue
+            for f in fails:
+                if variant[0] == "obj" and f in RT_KINDS[1:]:
+                    continue       # a host method has one kind of runtime error
+                for ctx in ctxs:
+                    k += 1
+                    if quick and variant[1] == "shared" and k % 2:
+                        continue
+                    orc = dict(fixed)
+                    orc[site] = f
+                    add("errors", op, lk, r, orc, ctx=ctx, nomodel=(op[0] == "access"))
 
 
 # ---------------------------------------------------------------------------
@@ -549,6 +707,47 @@ def implements(k, key):
     return k[0] in ("map", "obj") and key in k[1] and not (k[0] == "map" and k[2] == "decoy")
 
 
+MARKERS = ("catch-inner", "catch-outer", "finally", "after")
+
+
+def d7_error_delivery(case, trace, result):
+    """the operation ran below try / catch / finally: whatever the operation does, `finally` runs
+    exactly once, the outer handler never sees anything, the follow-up operations work; and when the
+    last user function that ran was made to fail (a throw or a runtime error; `unimplemented` where
+    nothing takes over), the error reaches the innermost catch right away"""
+    fails = []
+    names = [t[0] for t in trace]
+    if names.count("finally") != 1:
+        fails.append(f"D7 finally ran {names.count('finally')} times")
+    if "catch-outer" in names:
+        fails.append("D7 the error skipped the innermost catch and reached the outer handler")
+    if names.count("catch-inner") > 1:
+        fails.append("D7 catch ran more than once")
+    if names.count("after") != 1 or names[-1:] != ["after"]:
+        fails.append(f"D7 execution did not continue normally after the try expression: {names[-3:]}")
+    inner = unwrap_result(result)
+    if inner is None:
+        fails.append(f"D7 the script did not finish with [res, 'fu', 7] on the same VM: {result}")
+    user = [t for t in trace if t[0] not in MARKERS]
+    if user:
+        last = user[-1][0]
+        side, key = last[0], last[1:]
+        k = case["l"] if side == "L" else case["r"]
+        beh = case["oracle"].get((side, key), "val")
+        hard = beh == "err" or beh in RT_BODY
+        infallible = k[0] == "obj" and key in ("@next", "@next_back", "@size")
+        if hard and not infallible:
+            i = len(user)
+            if names[i:i + 2] != ["catch-inner", "finally"]:
+                fails.append(f"D7 {last} failed ({beh}) but the error was not delivered to the innermost catch "
+                             f"(then finally): after it came {names[i:i + 3]}")
+            if inner is not None and inner != 's"caught"':
+                fails.append(f"D7 {last} failed ({beh}) but the try expression produced {inner}")
+    if "catch-inner" in names and inner is not None and inner != 's"caught"':
+        fails.append(f"D7 catch ran but the result is {inner}")
+    return fails
+
+
 def d_predicates(case, res):
     """returns a list of failed clause descriptions"""
     fails = []
@@ -556,6 +755,16 @@ def d_predicates(case, res):
     l, r, orc = case["l"], case["r"], case["oracle"]
     trace, result = res.get("trace", []), res.get("result", "")
     dl, dr = kind_desc("L", l), kind_desc("R", r)
+    if case.get("ctx") is not None:
+        fails += d7_error_delivery(case, trace, result)
+        trace = [t for t in trace if t[0] not in MARKERS]
+        inner = unwrap_result(result)
+        if inner is not None:
+            result = "E(caught)" if inner == 's"caught"' else inner
+    if kind == "access":
+        if orc.get(("L", "@access"), "val") == "val" and (trace[:1] != [["L@access", "L", "s:foo"]] or result != 's"L@access"'):
+            fails.append(f"D6 @access should be called with (self, key) and its value used: {trace[:2]} {result}")
+        return fails
     if kind == "arith":
         sym = dict(ARITH)[name]
         kop, krop = "@" + sym, "@r" + sym
@@ -579,7 +788,7 @@ def d_predicates(case, res):
                 fails.append(f"D2 rhs fallback expected {want}, trace {trace}")
             elif rb == "val" and result != f's"R{krop}"':
                 fails.append(f"D2 rhs {krop} returned its value but the result is {result}")
-        if lhs_impl and lb in ("val", "err", "null") and any(t[0].startswith("R") for t in trace):
+        if lhs_impl and (lb in ("val", "err", "null") or lb in RT_BODY) and any(t[0].startswith("R") for t in trace):
             fails.append(f"D2 rhs function ran although the lhs {kop} did not report unimplemented")
         if (not lhs_impl or lb == "unimpl") and not rhs_impl:
             both_maps = l[0] == "map" and r[0] == "map"
@@ -696,7 +905,7 @@ def known_class(case, enc):
 def case_repr(case):
     return json.dumps({"op": case["op"], "l": [case["l"][0], sorted(case["l"][1]) if case["l"][0] != "plain" else case["l"][1]] + list(case["l"][2:]),
                        "r": [case["r"][0], sorted(case["r"][1]) if case["r"][0] != "plain" else case["r"][1]] + list(case["r"][2:]),
-                       "oracle": sorted([s, k, b] for (s, k), b in case["oracle"].items())})
+                       "oracle": sorted([s, k, b] for (s, k), b in case["oracle"].items()), "ctx": case.get("ctx")})
 
 
 def run_impl(binp, scripts, tag):
@@ -830,8 +1039,21 @@ def run(tier, seed):
         header = "From Coq Require Import List String NArith.\nImport ListNotations.\n" \
                  "From KV.obj Require Import GenMeta ObjModel ObjRun.\nOpen Scope string_scope.\nOpen Scope N_scope.\n"
         try:
-            vals = C.coq_eval(UNIT, header, [case_term(T, c) for c in cases] + [access_term(c) for c in acases],
-                              tag="c17", per_shard=700)
+            terms, slot = [], {}
+            case_slot = []
+            for c in cases:
+                if c.get("nomodel"):
+                    case_slot.append(None)
+                    continue
+                t = case_term(T, c)
+                if t not in slot:
+                    slot[t] = len(terms)
+                    terms.append(t)
+                case_slot.append(slot[t])
+            n_terms = len(terms)
+            raw = C.coq_eval(UNIT, header, terms + [access_term(c) for c in acases], tag="c17", per_shard=500)
+            vals = [None if k is None else raw[k] for k in case_slot] + raw[n_terms:]
+            chk.coverage["distinct_model_terms"] = n_terms
         except RuntimeError as e:
             chk.log(str(e)[-3000:])
             vals = None
@@ -839,14 +1061,14 @@ def run(tier, seed):
             chk.oblige("corr:model-evaluates", False)
         else:
             for i, (c, r, v) in enumerate(zip(cases, impl_ops, vals[:len(cases)])):
-                if "panic" in r:
+                if "panic" in r or v is None:
                     continue
-                events, outcome = v
-                et = expected_trace(T, c, events)
-                if r.get("trace") != et or not result_matches(T, c, outcome, r.get("result", "")):
+                (events, outcome), leftover = v
+                et = expected_full_trace(T, c, events, outcome)
+                if leftover != 0 or r.get("trace") != et or not full_result_matches(T, c, events, outcome, r.get("result", "")):
                     disagreements.append((i, et, outcome))
                 kc = known_class(c, v)
-                if kc == "C17a" and r.get("result") == "EType":
+                if kc == "C17a" and (r.get("result") == "EType" or c.get("ctx") is not None):
                     chk.known("C17a `for x in obj` fails (expected Iterator) when @iterator returns an iterable that is "
                               "not already an iterator (e.g. a List), although obj.to_tuple() iterates it and the guide "
                               "says the returned iterable is used")
@@ -937,7 +1159,7 @@ def replay(path, args):
             c = data["case"]
             fix = lambda k: (k[0], k[1]) if k[0] == "plain" else \
                 ((k[0], frozenset(k[1]), k[2]) if k[0] == "map" else (k[0], frozenset(k[1])))
-            case = {"op": tuple(c["op"]), "l": fix(c["l"]), "r": fix(c["r"]),
+            case = {"op": tuple(c["op"]), "l": fix(c["l"]), "r": fix(c["r"]), "ctx": c.get("ctx"),
                     "oracle": {(s, k): b for s, k, b in c["oracle"]}}
             fails = ["VM panicked"] if "panic" in r else d_predicates(case, r)
         else:
